@@ -29,12 +29,47 @@ fn run_t<T: Elem + Ord>(routine: &str, t: &mut Toks) -> String {
     match routine {
         "partition" => {
             let p = t.usize();
+            // ownership of the array the routine is called on: 0 a mutable view into the parent, 1 a
+            // shared array (ArcArray) with a second live handle, 2 a copy-on-write array still borrowing
+            // the parent.  For 1 and 2 the other handle / the parent must come out unchanged; the
+            // result is then written into the parent so that the same model applies.
+            let own = t.try_next().map(|x| x.parse::<usize>().expect("own")).unwrap_or(0);
+            if own == 0 {
+                let r = guarded(|| {
+                    let mut v = parent.view_mut().into_dimensionality::<Ix1>().unwrap();
+                    v.partition_mut(p)
+                });
+                return match r {
+                    Some(k) => format!("OK {} | {}", k, parent.dump()),
+                    None => format!("PANIC | {}", parent.dump()),
+                };
+            }
+            let before = parent.dump();
             let r = guarded(|| {
-                let mut v = parent.view_mut().into_dimensionality::<Ix1>().unwrap();
-                v.partition_mut(p)
+                let lane = parent.view().into_dimensionality::<Ix1>().unwrap();
+                if own == 1 {
+                    let mut sh = lane.to_owned().into_shared();
+                    let keep = sh.clone();
+                    let k = sh.partition_mut(p);
+                    let untouched = keep.iter().zip(lane.iter()).all(|(a, b)| a.show() == b.show());
+                    (k, sh.to_vec(), untouched)
+                } else {
+                    let mut cow = ndarray::CowArray::from(lane.clone());
+                    let k = cow.partition_mut(p);
+                    (k, cow.to_vec(), true)
+                }
             });
             match r {
-                Some(k) => format!("OK {} | {}", k, parent.dump()),
+                Some((k, vals, untouched)) => {
+                    if !untouched || parent.dump() != before {
+                        return format!("ALIAS-MODIFIED | {}", parent.dump());
+                    }
+                    let mut v = parent.view_mut().into_dimensionality::<Ix1>().unwrap();
+                    for (dst, src) in v.iter_mut().zip(vals.into_iter()) {
+                        *dst = src;
+                    }
+                    format!("OK {} | {}", k, parent.dump())
+                }
                 None => format!("PANIC | {}", parent.dump()),
             }
         }
